@@ -678,6 +678,7 @@ func RunCommon(prop string, c *run.Ctx, s *kit.Summary, children func([]Job, int
 			DualStackRuns(c, s, r)
 			LazyTargeterRuns(c, s, r)
 			SlowBodyRuns(c, s, r)
+			FlakyKeepAliveRuns(c, s, r)
 		}
 	}
 }
